@@ -421,6 +421,16 @@ def l6_cases():
               F('same', *(atoms + [QA])), F('same', *(atoms + [A('x1')])), F('same', *(atoms + [A('other')]))]
         yield idx, 'wide-head-%d' % n, [rec, same], qs
         idx += 1
+    # heads with N constant arguments (each needs a unification) AND a variable that occurs twice among the direct
+    # arguments, resp. once directly and once inside a structure
+    for n in range(1, 16):
+        cs = [A('c%d' % i) for i in range(1, n + 1)]
+        mix = (F('mix', *([V('K')] + cs + [V('K')])), None)
+        mix2 = (F('mixs', *([V('K'), F('f', V('K'))] + cs)), call(F('eqk', V('K'))))
+        qs = [F('mix', *([QA] + cs + [QB])), F('mix', *([A('a')] + cs + [A('a')])), F('mix', *([A('a')] + cs + [A('b')])),
+              F('mixs', *([QA, QB] + cs)), F('mixs', *([A('a'), F('f', A('b'))] + cs)), F('mixs', *([QA, F('f', A('a'))] + cs[:-1] + [QB]))]
+        yield idx, 'mixed-head-%d' % n, [mix, mix2, (F('eqk', A('a')), None), (F('eqk', A('z')), None)], qs
+        idx += 1
     for n in (1, 2, 3, 4, 5, 7, 8, 9, 15, 16, 17, 31, 32, 33, 34, 63, 64, 65, 66, 100, 128, 129, 130):
         table = [(F('tab', A('k%d' % i), A('v%d' % i)), None) for i in range(1, n + 1)] + [(F('tab', ('v', ('_', 1)), A('default')), None)]
         qs = [F('tab', A('k1'), QA), F('tab', A('k%d' % n), QA), F('tab', QA, A('v%d' % n)), F('tab', QA, A('default')), F('tab', A('nokey'), QA)]
